@@ -84,7 +84,7 @@ class PoolCheck:
         if fam == "known":
             import copy
 
-            return copy.deepcopy(KNOWN_CASES[self.cid][i])
+            return copy.deepcopy(KNOWN_CASES[self.cid][i % len(KNOWN_CASES[self.cid])])
         from . import sweeps
 
         return sweeps.case(self.sweeps, seed, i, tier)
@@ -337,7 +337,7 @@ reg(PoolCheck(
     "boundaries and inside workers/callbacks/iterators); non-trivial = a task began into the last free slot and tasks ended in "
     ">=2 different ways; distinct = distinct (operation,situation) sequence + event-bigram signature",
     lambda s: s.get("C01.begin_at_last_slot", 0) > 0 and sum(1 for k in ("end.return", "end.raise", "end.cancelled") if s.get(k)) >= 2,
-    6000, 240000,
+    6000, 120000,
     floors={"C01.begin_at_last_slot": 2000, "C01.is_full.full": 200, "C01.is_full.room": 500, "C01.reconfigured_empty_pool.waiting": 50},
 ))
 
@@ -348,7 +348,7 @@ reg(PoolCheck(
     "workers and callbacks incl. before a task's first step; non-trivial = a cancellation was delivered and a flush or async callback overlapped; "
     "distinct by operation/situation sequence + event-bigram signature",
     lambda s: any(k.startswith("cancel.") for k in s) and (s.get("C13.flush_returned") or s.get("cb.e.async") or s.get("cb.c.async")),
-    6000, 240000,
+    6000, 120000,
     floors={"cancel_with_msg": 200, "cancel.id.unbegun": 20, "cancel.group.unbegun": 20, "C02.probe.idle": 1500, "C02.idle_checks.busy": 500},
 ))
 
@@ -357,7 +357,7 @@ reg(PoolCheck(
     "random scenarios mixing return/raise/cancel endings with none/plain/coroutine/gated/raising callbacks and repeated cancellations; "
     "non-trivial = both callback kinds fired and an async callback was used; distinct by signature",
     lambda s: any(k.startswith("cb.c.") for k in s) and any(k.startswith("cb.e.") for k in s) and (s.get("cb.e.async") or s.get("cb.c.async")),
-    6000, 240000,
+    6000, 120000,
     floors={"C03.cb_state_checks": 10000, "cb.c.async": 300, "cb.c.sync": 300, "cb.e.async": 2000, "cb.e.sync": 2000},
 ))
 
@@ -367,7 +367,7 @@ reg(PoolCheck(
     "random scenarios dominated by apply/start requests (num 0..8, args/kwargs shapes) on small pools with lock/unlock/gather_and_close and unrelated "
     "cancellations after acceptance; non-trivial = a request was accepted on a full pool and completed its exact count; distinct by signature",
     lambda s: s.get("C04.count_checked", 0) > 0 and any(k.endswith("accepted:full") for k in s),
-    6000, 240000,
+    6000, 120000,
     floors={"C04.count_checked": 3000, "C04.num0": 50, "C04.callraise": 50, "lock_midspawn": 50},
 ))
 
@@ -377,16 +377,16 @@ reg(PoolCheck(
     "random scenarios with 1-4 concurrent map/starmap/doublestarmap requests (0..12 elements through a counting generator, num_concurrent 1..4), "
     "gated completion orders, single cancellations, bad elements; non-trivial = more elements than num_concurrent and the tight laziness bound was reached; distinct by signature",
     lambda s: s.get("C05.n_gt_nc", 0) > 0 and s.get("C05.lazy_tight", 0) > 0,
-    6000, 240000,
+    6000, 120000,
     floors={"C05.empty_element": 100, "C05.work_conserving_checked": 300, "C05.lazy_tight": 5000, "C05.skip_checked": 300, "C05.begin_at_nc": 2000},
 ))
 
 reg(PoolCheck(
-    "C06", P(w={"cancel": 14, "intruder": 5, "flush": 3, "cancel_group": 2, "stop": 2, "reject": 0}, inner_ops=0.3, cb=0.6, cb_gate=0.4),
+    "C06", P(w={"cancel": 14, "intruder": 5, "flush": 3, "cancel_group": 2, "stop": 2, "reject": 0, "qput": 4}, inner_ops=0.3, cb=0.6, cb_gate=0.4, qwait=0.35),
     "random scenarios in which cancel(*ids) is called with 0..4 ids drawn from running / repeated / pending / unbegun / in-callback / ended / flushed / never-issued / negative ids "
     "by conductor, intruders, workers and callbacks; non-trivial = a call mixed valid and offending ids, or a call was accepted; distinct by signature",
     lambda s: s.get("C06.mixed", 0) > 0 or s.get("C06.accepted_calls", 0) > 0,
-    6000, 240000,
+    6000, 120000,
     floors={"C06.mixed": 300, "C06.reject.AlreadyEnded": 300, "C06.reject.AlreadyCancelled": 20, "C06.reject.InvalidTaskID": 300, "C06.delivered_exact": 1000},
 ))
 
@@ -395,7 +395,7 @@ reg(PoolCheck(
     "random scenarios with several sibling groups on saturated pools; cancel_group/cancel_all issued by conductor, intruders, workers and callbacks (own and foreign groups), "
     "immediate name re-use; non-trivial = a cancelled group still had unspawned work; distinct by signature",
     lambda s: s.get("C07.unspawned_work", 0) > 0,
-    6000, 240000,
+    6000, 120000,
     floors={"C07.siblings_ok": 500, "C07.spawner.not_started": 100, "C07.spawner.wait_pool_room": 300, "C07.spawner.wait_map_slot": 50, "C07.spawner.finished": 300,
             "C07.issuer.worker": 50, "C07.issuer.cb": 20, "C07.issuer.intruder": 100, "C07.unknown_name": 100},
 ))
@@ -405,7 +405,7 @@ reg(PoolCheck(
     "random scenarios ending in (or interleaved with) gather_and_close() with until_closed() waiters: pending and blocked spawners, groups cancelled in the same tick, "
     "tasks mid-callback; non-trivial = a spawner still had work or a callback was in progress at call time; distinct by signature",
     lambda s: s.get("C08.hist.pending_spawner", 0) > 0 or s.get("C08.hist.mid_callback", 0) > 0,
-    6000, 240000,
+    6000, 120000,
     floors={"C08.returned": 2000, "C08.hist.pending_spawner": 200, "C08.hist.mid_callback": 30, "C08.closed_rejects": 2000},
 ))
 
@@ -418,17 +418,17 @@ reg(C09Check(
     "(generated group names, task ids, iteration and handle stamps included); "
     "non-trivial = the pool was busy at rejection time; distinct by signature",
     lambda s: s.get("C09.reject_busy", 0) > 0,
-    6000, 240000,
+    6000, 120000,
     floors={"C09.reject": 5000, "C09.reject_busy": 500, "C09.multi_cause": 200, "C09.accept_after_unlock": 300,
             "C09.cause.pool_size.ValueError": 100, "C09.cause.ctor.ValueError": 50, "C09.notrace_compared": 500},
 ))
 
 reg(PoolCheck(
-    "C10", P(w={"apply": 9, "map": 9, "start": 9, "cancel_group": 5, "reject": 1}, named=0.6),
+    "C10", P(w={"apply": 9, "map": 9, "start": 9, "cancel_group": 5, "reject": 1, "burst": 1.5}, named=0.6),
     "random histories of named/unnamed requests, group cancellations and name re-use (incl. user names imitating generated ones); "
     "non-trivial = three or more live groups were compared at an idle point; distinct by signature",
     lambda s: s.get("C10.three_live_groups", 0) > 0,
-    6000, 240000,
+    6000, 120000,
     floors={"C10.group_checks": 10000, "C10.generated_names": 5000, "name_reused": 100, "C10.three_live_groups": 1000},
 ))
 
@@ -437,7 +437,7 @@ reg(PoolCheck(
     "random histories with 1-3 pools of both classes (named/unnamed/same-named) in one loop, flushes and cancellations between spawns; "
     "non-trivial = at least two callbacks compared their id with the task name; distinct by signature",
     lambda s: s.get("C03.cb_state_checks", 0) >= 2,
-    6000, 240000,
+    6000, 120000,
     floors={"C03.cb_state_checks": 8000, "C11.unnamed_pools": 1000},
 ))
 
@@ -448,7 +448,7 @@ reg(C12Check(
     "body/callback failure replaced by success at the same point and demands an identical event log (iteration and handle stamps included); non-trivial = an injected exception was raised "
     "and flush/gather_and_close observed it; distinct by signature",
     lambda s: s.get("end.raise", 0) > 0 and (s.get("C12.flush_raised_injected") or s.get("C12.gac_raised_injected") or s.get("C12.flush_rex_ok")),
-    6000, 240000, level="fault_enumeration",
+    6000, 120000, level="fault_enumeration",
     floors={"C12.flush_raised_injected": 100, "C12.flush_rex_ok": 300, "end.raise": 3000, "C12.capacity_ok_after_faults": 500, "C12.others_complete_ok": 500, "C12.twin_compared": 500},
 ))
 
@@ -457,7 +457,7 @@ reg(C13Check(
     "random scenarios with 1-3 overlapping flush() calls while tasks end, are cancelled and sit in gated async callbacks; "
     "non-trivial = a flush was suspended while a callback was in progress; distinct by signature",
     lambda s: s.get("C13.flush_overlap_cb", 0) > 0 or s.get("C13.flush_suspended", 0) > 0,
-    6000, 240000,
+    6000, 120000,
     floors={"C13.flush_returned": 4000, "C13.flush_overlap_cb": 150, "C13.forgotten_probe": 5000, "C13.server.kept": 20, "C13.server.flush_answered": 20, "flush_abandoned": 50},
 ))
 
@@ -466,7 +466,7 @@ reg(PoolCheck(
     "random SimpleTaskPool histories of start/stop/stop_all/cancel(id)/finish that leave gaps in the running ids, n from -1..5; "
     "non-trivial = stop() was called while the running ids had gaps; distinct by signature",
     lambda s: s.get("C14.gaps", 0) > 0,
-    6000, 240000,
+    6000, 120000,
     floors={"C14.stop_calls": 4000, "C14.gaps": 500, "C14.nonpositive": 300, "C14.more_than_running": 300},
 ))
 
@@ -479,7 +479,7 @@ reg(C15Check(
     "random histories of pool_size assignments (old/new over {0,1,2,3,5,unbounded}, negative values) at every occupancy 0..old with 0..n invocations waiting for room, "
     "gated workers; pool_size is read at every handle boundary and user-code point; non-trivial = an assignment happened while tasks were running or waiting; distinct by signature",
     lambda s: any(k.endswith(".busy") or k.endswith(".waiting") for k in s if k.startswith("C15.assign")),
-    6000, 240000,
+    6000, 120000,
     floors={"C15.assign.grow.waiting": 300, "C15.assign.shrink.busy": 300, "C15.assign.below_running": 100, "C15.negative": 300,
             "C15.reports_checked.busy": 20000, "C15.begin_after_assign": 1000, "C15.idle_with_waiting": 500, "C15.session_pool_size_commands": 500},
 ))
